@@ -66,7 +66,7 @@ func (t *Trace) loopGuard(req func(x, rng string) []string, rangeOK func(rng str
 			continue
 		}
 		for _, o := range t.Guards {
-			if o.Helper == "" && o.Closure == closure && o.Terminates && len(o.Own) == 1 && o.At <= g.At &&
+			if o.Helper == "" && o.Closure == closure && o.Terminates && len(o.Own) == 1 &&
 				(strings.Contains(o.Own[0], "."+g.Helper+"(") || strings.HasPrefix(o.Own[0], g.Helper+"(")) &&
 				!strings.HasPrefix(o.Own[0], "!") && termsWithin(o.Terms, terms...) {
 				return o.At, g.LoopRange
@@ -298,16 +298,25 @@ func runningAndUidMatchShape(t *Trace) bool {
 	return errKeeps && u >= 0 && tr > u && fa > u
 }
 
+// ConfigurePool: in the loop over the configured pools (P0) there is exactly one way out, a `break` that is reached
+// iff the pool's pod subnet AND its ranges contain the address, right after `found` is set and the record is cached.
 func configurePoolLookup(t *Trace) bool {
-	for _, g := range t.Guards {
-		if g.Helper != "" || g.Loop == 0 || g.LoopRange != "P0" || !g.Terminates {
+	loops := map[int][]int{}
+	for i, e := range t.Events {
+		if e.Kind == "break" && e.Helper == "" && e.LoopRange == "P0" {
+			loops[e.Loop] = append(loops[e.Loop], i)
+		}
+	}
+	for loop, brs := range loops {
+		if len(brs) != 1 {
 			continue
 		}
-		eff := g.Eff()
+		br := t.Events[brs[0]]
+		eff := relConds(br.Path, br.LoopStart)
 		if len(eff) != 2 {
 			continue
 		}
-		var n string
+		n := ""
 		for _, c := range eff {
 			if strings.HasPrefix(c, "el(P0).Contains(") && strings.HasSuffix(c, ")") {
 				n = c[len("el(P0).Contains(") : len(c)-1]
@@ -316,26 +325,19 @@ func configurePoolLookup(t *Trace) bool {
 		if n == "" || !sameSet(eff, []string{"el(P0).Contains(" + n + ")", "el(P0).IPNet().Contains(" + n + ")"}) {
 			continue
 		}
-		if !termsWithin(g.Terms, "break") {
-			continue
-		}
 		foundSet, cached := false, false
-		for _, e := range t.Events[g.From:g.To] {
-			if e.Kind == "assign" && strings.HasSuffix(e.Text, "=true") {
+		for i, e := range t.Events {
+			if e.Loop != loop || e.Kind != "assign" || i > brs[0] || !sameSet(relConds(e.Path, e.LoopStart), eff) {
+				continue
+			}
+			if strings.HasSuffix(e.Text, "=true") {
 				foundSet = true
 			}
-			if e.Kind == "assign" && strings.Contains(e.Text, ".Name]=") {
+			if strings.Contains(e.Text, ".Name]=") {
 				cached = true
 			}
 		}
-		// no other way out of the pool loop
-		otherBreak := false
-		for i, e := range t.Events {
-			if e.Kind == "break" && e.Loop == g.Loop && (i < g.From || i >= g.To) {
-				otherBreak = true
-			}
-		}
-		if foundSet && cached && !otherBreak {
+		if foundSet && cached {
 			return true
 		}
 	}
@@ -358,8 +360,12 @@ func lockBefore(t *Trace, closure int, firstUse []string, allowLister bool) (loc
 		if e.Closure != closure || (e.Kind != "call" && e.Kind != "send") {
 			continue
 		}
+		callee := e.Text
+		if i := strings.IndexByte(callee, '('); i >= 0 {
+			callee = callee[:i+1]
+		}
 		for _, k := range keyAccess {
-			if strings.Contains(e.Text, k) && !(allowLister && strings.HasPrefix(e.Text, "R.PodLister.")) {
+			if strings.Contains(callee, k) && !(allowLister && strings.HasPrefix(callee, "R.PodLister.")) {
 				early = true
 			}
 		}
